@@ -543,10 +543,13 @@ def libAgrees (lib : List (Nat × List FRow)) : Bool :=
   lib.all fun (mid, rows) => rowsAgree (reference.getD mid []) rows
 
 open Bp.Gen.Desc in
-/-- a bundled enum agrees with the reference enum on every number they share: the bundled
-    member name is the reference name or a suffix of it (the plugin strips the enum-name prefix) -/
+/-- a bundled enum agrees with the reference enum on every member they share: a bundled member
+    whose name is a reference member's name or a suffix of one (the plugin strips the enum-name
+    prefix) carries the number of one of those reference members -/
 def enumAgrees (ref : List ERow) (rows : List ERow) : Bool :=
-  rows.all fun r => ref.all fun q => !(q.num = r.num) || q.name % 256 ^ r.len = r.name
+  rows.all fun r =>
+    !(ref.any fun q => q.name % 256 ^ r.len = r.name)
+      || (ref.any fun q => q.name % 256 ^ r.len = r.name && q.num = r.num)
 
 open Bp.Gen.Desc in
 def libEnumsAgree (lib : List (Nat × List ERow)) : Bool :=
